@@ -209,8 +209,8 @@ def playback_print(wsdir, pkg, features, no_default, kani_args, harness, timeout
     text = p.stdout + '\n' + p.stderr
     open(logpath, 'w').write('$ ' + ' '.join(cmd) + '\n' + text)
     tests = re.findall(r'```\n(.*?)```', text, re.S)
-    # counterexamples for failed checks only (Kani also prints witnesses for satisfied cover points)
-    tests = [t for t in tests if not re.search(r'Check for `cover`', t)]
+    # Kani also prints witnesses for satisfied cover points, and merges a counterexample with a cover
+    # witness when their concrete values coincide: all are kept, the native run tells which ones fail.
     return tests or None
 
 
